@@ -25,4 +25,6 @@ PY
   [ "$rc" = 1 ] || fail=1
 done
 [ -z "$(git -C /repo status --short)" ] || { echo "WARNING: /repo is not clean"; fail=1; }
+# the evidence files were rewritten by runs against broken trees: restore the committed ones
+git checkout -q -- evidence 2>/dev/null
 exit $fail
